@@ -315,7 +315,7 @@ def write_certs(ns, out_path):
     if missing:
         # the search needs sympy (tooling venv); bounded time; the cache file is not committed by the check
         try:
-            subprocess.run(["python3-vt", os.path.join(TOOLS, "pratt.py")] + ["%x" % n for n in missing], timeout=900,
+            subprocess.run(["python3-vt", os.path.join(TOOLS, "pratt.py")] + ["%x" % n for n in missing], timeout=240,
                            stdout=subprocess.PIPE, stderr=subprocess.PIPE)
             db = json.load(open(pratt.CERTS)) if os.path.exists(pratt.CERTS) else {}
         except Exception as e:
